@@ -14,6 +14,7 @@ def children(v):
                 out.append((("f", vi, fi), f))
     elif isinstance(v, VVec):
         out.append((("len",), VInt(None, v.len)))
+        out.append((("content",), VUnknown(None, "content")))
         if v.elems is not None:
             for i, e in enumerate(v.elems):
                 out.append((("e", i), e))
@@ -49,7 +50,9 @@ def with_child(v, key, nv):
         return VAdt(v.ty, v.vidx, vs, v.base)
     if isinstance(v, VVec):
         if k == "len":
-            return VVec(nv.lin, None, None, v.name, v.elem_ty, v.marks)
+            return VVec(nv.lin, v.segs, v.elems, v.name, v.elem_ty, v.marks)
+        if k == "content":
+            return VVec(v.len, None, None, v.name, v.elem_ty, None)
         es = list(v.elems)
         es[key[1]] = nv
         return VVec(v.len, v.segs, tuple(es), v.name, v.elem_ty, v.marks)
